@@ -24,6 +24,7 @@ type LoopContract struct {
 	Decreases  *Clause
 	Modifies   []*Clause
 	Lemmas     []*Clause // instances of built-in arithmetic lemmas assumed at the loop head
+	Latch      []*Clause // per-iteration assertions checked at every latch; atHead(e) is e at the loop head
 }
 
 type Contract struct {
@@ -388,6 +389,8 @@ func parseContractFile(path string) (*ContractFile, error) {
 						lc.Invariants = append(lc.Invariants, cl)
 					case "lemma":
 						lc.Lemmas = append(lc.Lemmas, cl)
+					case "latch":
+						lc.Latch = append(lc.Latch, cl)
 					case "decreases":
 						lc.Decreases = cl
 					case "modifies":
